@@ -41,11 +41,34 @@ fn token(rng: &mut Rng, fl: Flavor) -> &'static str {
     }
 }
 
+/// a character from outside the fixed alphabets: punctuation and dash blocks (look-alikes of the
+/// ASCII characters the crate searches for: U+2010 HYPHEN, U+2011, U+2212, U+FF0D, U+2028, NEL, …),
+/// Latin-1, CJK punctuation, full-width forms, and uniformly random scalar values
+pub fn exotic(rng: &mut Rng) -> char {
+    let cp = match rng.below(8) {
+        0 | 1 => 0x2000 + rng.below(0x70) as u32,          // General Punctuation
+        2 => 0x80 + rng.below(0x80) as u32,                // Latin-1 supplement (NEL, NBSP, SHY, …)
+        3 => [0x2010, 0x2011, 0x2012, 0x2013, 0x2014, 0x2015, 0x2212, 0xfe58, 0xfe63, 0xff0d, 0x058a, 0x1806][rng.below(12)],
+        4 => 0x3000 + rng.below(0x40) as u32,              // CJK symbols and punctuation
+        5 => 0xff00 + rng.below(0xf0) as u32,              // half-/full-width forms
+        6 => rng.below(0x10000) as u32,                    // BMP
+        _ => 0x10000 + rng.below(0x100000) as u32,         // astral
+    };
+    char::from_u32(cp).unwrap_or('\u{2010}')
+}
+
 /// one paragraph (no line breaks unless the flavour is Mixed)
 pub fn para(rng: &mut Rng, fl: Flavor, max_tokens: usize) -> String {
     let n = rng.below(max_tokens + 1);
     let mut s = String::new();
     for _ in 0..n {
+        if fl != Flavor::Plain && rng.chance(1, 12) {
+            let c = exotic(rng);
+            if c != '\n' {
+                s.push(c);
+                continue;
+            }
+        }
         s.push_str(token(rng, fl));
     }
     s
@@ -97,7 +120,19 @@ pub fn width_for(rng: &mut Rng, text: &str) -> usize {
         7 => bl + 1,
         8 => bl.saturating_sub(1),
         9 => if rng.chance(1, 2) { usize::MAX } else { usize::MAX - 1 },
+        10 => if rng.chance(1, 4) { machine_boundary(rng) } else { rng.range(0, 12) },
         _ => rng.range(0, 12),
+    }
+}
+
+/// widths around the limits of the narrower integer types (a width converted to u8/u16/u32/f32,
+/// or handed to a formatter, changes behaviour here)
+pub fn machine_boundary(rng: &mut Rng) -> usize {
+    let b: usize = [1usize << 8, 1 << 16, 1 << 24, 1 << 31, 1 << 32, 1 << 53][rng.below(6)];
+    match rng.below(3) {
+        0 => b - 1,
+        1 => b,
+        _ => b + 1,
     }
 }
 
